@@ -42,8 +42,17 @@ def cond_atoms(c, truth):
             op = {">": "<", ">=": "<="}[op]
             l, r = r, l
         out.append((op, _val_text(l), _val_text(r), l, r))
+        # `x == 0` / `x != 0` are also the boolean atoms !x / x (both spellings are always reported)
+        if op in ("==", "!="):
+            for z, v in ((r, l), (l, r)):
+                if int_value(z) == 0 and int_value(v) is None:
+                    out.append(("false" if op == "==" else "true", lv(v), v))
+                    break
         return out
     out.append(("true" if truth else "false", lv(c), c))
+    # ... and a bare x / !x is also x != 0 / x == 0
+    zero = {"k": "int", "v": 0, "t": "int"}
+    out.append(("!=" if truth else "==", _val_text(c), "0", c, zero))
     return out
 
 
